@@ -162,6 +162,12 @@ func (r *BinaryCopyReader) Read(ctx context.Context) (_ []any, err error) {
 		return nil, err
 	}
 
+	// NOTE: the file trailer consists of a 16-bit integer word containing -1,
+	// it marks the end of the tuples and is followed by a CopyDone message.
+	if fields == math.MaxUint16 {
+		return nil, io.EOF
+	}
+
 	if int(fields) != len(r.scanners) {
 		return nil, fmt.Errorf("unexpected number of fields: %d, the copy operation declares %d columns", fields, len(r.scanners))
 	}
